@@ -1,6 +1,7 @@
 /-
   C18 — Kubernetes shards are ordered by ordinal; scaling deletes only removed volumes.
 -/
+import Kvass.Pins.K8s
 import Kvass.Spec.K8s
 
 namespace Kvass.Props.C18
